@@ -534,6 +534,7 @@ func init() {
 		runMergeEdges(ctx, "C02", false, []*rj.Value{w40, rj.NewObj(rj.Member{Name: "in", V: w40}), rj.MustParse(`{"k01":{"x":1,"n":null}}`)}, scalePatches, mergeCfg{})
 		so := scaleObjects()
 		runMergeEdges(ctx, "C02", false, so, so, mergeCfg{})
+		runSizeSweep(ctx, "C02", false, tier, sizeWhat{merge: true})
 		// the shortest objects that hold a null member, and names with DEL / control characters
 		tiny := parseAll([]string{`{"":null}`, `{"a":{"":null}}`, `{"a":{"":null,"b":1}}`, `{"":{"":null}}`, "{\"a\u007fb\":1,\"c\":{\"\u007f\":null}}", "{\"\u007f\":{\"\\u007f\":2}}"})
 		runMergeEdges(ctx, "C02", false, append(tiny, parseAll([]string{`{}`, `{"a":1}`, `{"":{"x":1}}`, `1`})...), tiny, mergeCfg{variants: true})
@@ -580,6 +581,7 @@ func init() {
 		runCreatePairs(ctx, "C03", false, scaleObjs, scaleObjs)
 		nb := neighbourObjects()
 		runCreatePairs(ctx, "C03", false, nb, nb)
+		runSizeSweep(ctx, "C03", false, tier, sizeWhat{create: true})
 	}, false)
 	registerMerge("C06", func(ctx *core.Ctx, tier string) {
 		ctx.Rep.Rule = "Equal(a,b) vs reference structural equality (numbers by literal; numerically-equal-but-differently-spelled pairs are DontCare) for all ordered pairs of V3 (quick) / V4 (thorough), each value also in reordered, whitespace-padded and \\u-escaped spellings; every JSON string escape (solidus, quote, backslash, b f n r t, uXXXX in both cases, surrogate pairs) in all spellings at the root, in arrays, as member value and as member name; " +
@@ -592,6 +594,7 @@ func init() {
 		runEqualPairs(ctx, "C06", false, vs, true)
 		runEqualPairs(ctx, "C06", false, scaleObjects(), true)
 		runEqualPairs(ctx, "C06", false, neighbourObjects(), true)
+		runSizeSweep(ctx, "C06", false, tier, sizeWhat{equal: true})
 		runEqualEscapes(ctx, "C06")
 		runEqualMalformed(ctx, "C06", tier)
 	}, false)
@@ -617,6 +620,7 @@ func init() {
 		narrow := parseAll([]string{`{}`, `{"m000":9,"z":1}`, `{"a":1,"b":{"c":2},"m001":{"y":2},"z":null}`, `{"k07":1,"k20":{"x":1},"m002":5,"m040":6,"z":[1]}`})
 		runCompose(ctx, "C07", false, narrow, so, append(narrow, so[:6]...))
 		runCompose(ctx, "C07", false, narrow, narrow, so)
+		runSizeSweep(ctx, "C07", false, tier, sizeWhat{compose: true})
 	}, false)
 }
 
@@ -625,7 +629,7 @@ func init() {
 	registerMerge("C16", func(ctx *core.Ctx, tier string) {
 		ctx.Rep.Rule = "(1) scanx: BFS over the synchronous product of the real scanner and a reference pushdown recogniser, all 256 bytes from every reachable state, stacks to depth 4: end-of-input acceptance must agree in every state (language equality for every length); " +
 			"(2) bytex(a): every string over 33 byte-class representatives up to length L whose proper prefixes are viable (plus each with one killing byte): Valid/Compact/Indent/Unmarshal/UnmarshalWithKeys accept iff RFC 8259 does; every accepted string, also with leading/trailing whitespace, goes to every public entry point (must be accepted when of the right shape; value-preserving); " +
-			"(3) bytex(b): every string over 16 symbols up to length 4 (thorough 5) in every []byte parameter of the v5 entry points: ill-formed => error (Equal: false); (4) nesting 9999/10000/10001. states = scanner product states + distinct well-formed strings"
+			"(3) bytex(b): every string over 16 symbols up to length 4 (thorough 5) in every []byte parameter of the v5 entry points: ill-formed => error (Equal: false); (4) nesting 9999/10000/10001; (5) string literals of every length 0..130 and around 256/1024/4096 bytes, plain and with one control byte / quote / escape / bad UTF-8 at the start, middle, end - codec functions and entry points; (6) one caller buffer per size 16..70000 handed to each entry point holding a well-formed text, then overwritten in place with an ill-formed one of the same length, then the well-formed one again. states = scanner product states + distinct well-formed strings"
 		ctx.Phase("scanx", func() { runScanx(ctx, 4) })
 		n, ne, nb := 5, 4, 4
 		if tier == "thorough" {
@@ -633,6 +637,8 @@ func init() {
 		}
 		ctx.Phase("bytex_a", func() { runBytexA(ctx, "C16", n, ne) })
 		ctx.Phase("bytex_b", func() { runBytexB(ctx, "C16", nb, byteFlags{reject: true, accept: true, applyOK: true}) })
+		ctx.Phase("string_shapes", func() { runStringShapes(ctx, "C16", byteFlags{reject: true, accept: true, applyOK: true}) })
+		ctx.Phase("buffer_reuse", func() { runBufferReuse(ctx, "C16") })
 		ctx.Phase("deep", func() { runDeep(ctx, "C16", tier, true, true) })
 	}, false)
 }
@@ -688,6 +694,7 @@ func init() {
 			nb := neighbourObjects()
 			runCreatePairs(ctx, "C19", true, nb, nb)
 			runEqualPairs(ctx, "C19", true, nb, true)
+			runSizeSweep(ctx, "C19", true, tier, sizeWhat{merge: true, create: true, equal: true, compose: true})
 			runEqualPairs(ctx, "C19", true, so, true)
 		})
 	}, true)
